@@ -443,6 +443,37 @@ def standin_sum(tier, seed):
                                   'C': {'thermochem': ThermochemGroup(3., 1., dict(tab), 298.15, (298., 1000.))}})
     for mp in ({'A': 1, 'B': 2, 'C': 1}, {'A': 1, 'B': 1}, {'B': 0.5, 'A': -1, 'C': 2}):
         check('synthetic-twins', syn, mp, 'twins')
+    # an estimate is made from the mapping as it was GIVEN: what the caller does to its dictionary afterwards (a work dict re-used for the next member of
+    # a series) does not change an estimate returned earlier
+    work = {'A': 1, 'C': 2}
+    n += 1
+    with real.quiet():
+        e1 = syn.Estimate(work, 'thermochem')
+        before = [real.outcome(getattr(e1, m_), 400.0) for m_ in ('get_CpoR', 'get_HoRT', 'get_SoR')]
+        work['A'] = 5
+        work['B'] = 1
+        after = [real.outcome(getattr(e1, m_), 400.0) for m_ in ('get_CpoR', 'get_HoRT', 'get_SoR')]
+    if before != after:
+        viol.append({'id': 'mapping-changed-after-estimate', 'input': "d = {'A': 1, 'C': 2}; e = lib.Estimate(d); d['A'] = 5; d['B'] = 1; e.get_X(400)", 'observed': str(after), 'expected': str(before)})
+    # a descriptor listed WITHOUT data: the missing-data error names it; once an Update supplies its data the same estimate is made (nothing remembered from
+    # the failed attempt)
+    n += 1
+    with real.quiet():
+        bare = GroupLibrary(None, {'A': {'thermochem': ThermochemGroup(-10., 25., dict(tab), 298.15, (298., 1000.))}, 'D': {}})
+        k1 = real.outcome(lambda: bare.Estimate({'A': 1, 'D': 2}, 'thermochem'))
+        named = None
+        try:
+            bare.Estimate({'A': 1, 'D': 2}, 'thermochem')
+        except GroupMissingDataError as e_:
+            named = [str(g_) for g_ in e_.groups]
+        except Exception:    # noqa
+            pass
+        bare.Update(GroupLibrary(None, {'D': {'thermochem': ThermochemGroup(3., 1., dict(tab), 298.15, (298., 1000.))}}))
+        k2 = real.outcome(lambda: bare.Estimate({'A': 1, 'D': 2}, 'thermochem').get_HoRT(400.0))
+        want2 = bare['A']['thermochem'].get_HoRT(400.0) + 2 * bare['D']['thermochem'].get_HoRT(400.0)
+    if named != ['D'] or k2[0] != 'ok' or abs(k2[1] - want2) > 1e-9:
+        viol.append({'id': 'data-supplied-after-a-failed-estimate', 'input': "lib = {A: data, D: {}}; Estimate({A: 1, D: 2}) fails; lib.Update({D: data}); Estimate({A: 1, D: 2}).get_HoRT(400)",
+                     'observed': {'first attempt names': named, 'second attempt': str(k2)[:100]}, 'expected': {'first attempt names': ['D'], 'second attempt': want2}})
     return {'name': 'estimate-is-weighted-sum', 'bound': 'unit vectors of all groups of 9 libraries + %d random mappings per library x up to 4 temperatures x 4 properties' % (2 * nrand),
             'evaluations': n, 'distinct_nontrivial': len(distinct), 'violations': viol, 'samples': samples,
             'rule': 'a case is a (library, mapping); distinct by mapping; all are non-trivial (at least one group with data)'}
